@@ -10,7 +10,7 @@ ROOT=$VR/.build
 LIB=$ROOT/lib/$FL
 DRV=$ROOT/drv/$FL
 CM=(-DMINIMAL=ON)
-CF=""; BT=Release; DRVF="-O1"; NODRV=0; DEFS=""; REALMASK=0
+CF=""; BT=Release; DRVF="-O1"; NODRV=0; DEFS=""; REALMASK=0; SYSRNG=0
 IFS='+' read -ra TOK <<< "$FL"
 for t in "${TOK[@]}"; do
   case $t in
@@ -27,6 +27,7 @@ for t in "${TOK[@]}"; do
     ms[234]) CM+=(-DMAX_SHARES=${t#ms});;
     nodrv) NODRV=1;;
     realmask) REALMASK=1;;
+    sysrng) SYSRNG=1; DEFS="$DEFS -DDRV_SYSRNG";;
     *) echo "build.sh: unknown flavour token $t" >&2; exit 2;;
   esac
 done
@@ -44,6 +45,8 @@ if [ ! -x $DRV/drv ] || [ -n "$(find $H $LIB/src/libascon_static.a -newer $DRV/d
   # realmask: the masking randomness comes from the library's own TRNG mixer (only the system
   # entropy source stays substituted), so that the mixer's use of a permutation state is exercised
   [ $REALMASK = 1 ] && WRAP="-Wl,--wrap=ascon_trng_generate,--wrap=ascon_permute"
+  # sysrng: the library's Linux entropy back end runs on a scripted getrandom()
+  [ $SYSRNG = 1 ] && WRAP="$WRAP,--wrap=getrandom"
   g++ -std=c++11 $DRVF $DEFS -Wall -Wno-unused-function -DHAVE_CONFIG_H -I$REPO/src -I$LIB -I$H \
       $(ls $H/drv_*.cpp $H/wrap_trng.cpp) $H/tramp_x86_64.S $LIB/src/libascon_static.a \
       $WRAP \
